@@ -17,6 +17,14 @@ static TRACK: AtomicBool = AtomicBool::new(false);
 static FAULT_IN: AtomicI64 = AtomicI64::new(-1);
 static FAULT_FIRED: AtomicU64 = AtomicU64::new(0);
 static FALLIBLE_EVENTS: AtomicU64 = AtomicU64::new(0);
+/// per marked call site (index = dashu_int::verif::SITE_*): requests seen / failed (cumulative over the process)
+static SITE_SEEN: [AtomicU64; 5] = [AtomicU64::new(0), AtomicU64::new(0), AtomicU64::new(0), AtomicU64::new(0), AtomicU64::new(0)];
+static SITE_FAILED: [AtomicU64; 5] = [AtomicU64::new(0), AtomicU64::new(0), AtomicU64::new(0), AtomicU64::new(0), AtomicU64::new(0)];
+
+pub const SITE_NAMES: [&str; 5] = ["unknown", "buffer_alloc", "buffer_realloc", "into_boxed_slice_realloc", "scratch_memory_alloc"];
+pub fn site_counters() -> Vec<(&'static str, u64, u64)> {
+    (0..5).map(|i| (SITE_NAMES[i], SITE_SEEN[i].load(Relaxed), SITE_FAILED[i].load(Relaxed))).collect()
+}
 
 pub fn track(on: bool) -> bool {
     TRACK.swap(on, Relaxed)
@@ -49,6 +57,8 @@ fn should_fail() -> bool {
         return false;
     }
     FALLIBLE_EVENTS.fetch_add(1, Relaxed);
+    let site = (dashu_int::verif::current_site() as usize).min(4);
+    SITE_SEEN[site].fetch_add(1, Relaxed);
     let c = FAULT_IN.load(Relaxed);
     if c < 0 {
         return false;
@@ -56,6 +66,7 @@ fn should_fail() -> bool {
     if c <= 1 {
         FAULT_IN.store(-1, Relaxed);
         FAULT_FIRED.fetch_add(1, Relaxed);
+        SITE_FAILED[site].fetch_add(1, Relaxed);
         true
     } else {
         FAULT_IN.store(c - 1, Relaxed);
